@@ -199,13 +199,53 @@ def kmeans_equivariance(ctx):
     return collapse(out, "C15.kmeans", "squared distances scale by s^2 and centroids follow x -> s x + t (hence also the criterion scales by s^2)")
 
 
-GROUPS = [guard(gmm_likelihood), guard(mstep_equivariance), guard(scoring_invariance), guard(kmeans_equivariance)]
+def kmeans_mstep_code(ctx):
+    """relational obligation on the REAL kmeans.m_step: fed the statistics of the transformed data (same assignments:
+    counts z, sums s f + t z, block criterion s^2 a) it returns the transformed centroids and s^2 x the criterion -- for ALL
+    counts z >= 0, i.e. also for a cluster that attracted no sample (whatever the code puts there must not depend on the origin;
+    whether that value is defined at all is C13's question, definedness clauses are not counted here)"""
+    out = []
+    s_ = T.sym("uscale")
+    tt = lambda d: T.app("tsh", d)
+    res = {}
+    for which in ("orig", "moved"):
+        I = new_interp()
+
+        def build(which=which):
+            z = input_arr("z", (KM.Kk,), dtype="int")
+            f = input_arr("f", (KM.Kk, KM.Dd))
+            a = T.sym("a")
+            if which == "moved":
+                f = Arr(f.shape, lambda k, d, f=f: s_ * P(f.fn(k, d)) + tt(d) * P(z.fn(k)))
+                a = s_ ** 2 * a
+            return [[(z, f, a)], KM.Nn], {}
+        try:
+            paths = I.run_paths(lambda: I.call(K.lookup(I, "kmeans.m_step"), *build()))
+        except ModelError as e:
+            return [Clause("C15.kmeans.mstep", "undecided", "", "kmeans.m_step (%s data): %s at %s" % (which, e, I.loc))]
+        if len(paths) != 1 or paths[0][1][0] != "ok":
+            return [Clause("C15.kmeans.mstep", "undecided", "", "kmeans.m_step forks or raises on generic statistics: %r" % (paths,))]
+        res[which] = paths[0][1][1]
+    F = KM.facts()
+    F.nonneg_apps.add("z")
+    F.pos_syms.add("uscale")
+    (m1, c1), (m2, c2) = res["orig"], res["moved"]
+    k, d = T.fresh("k"), T.fresh("d")
+    if not (isinstance(m1, Arr) and isinstance(m2, Arr) and m1.ndim == 2 and m2.ndim == 2):
+        return [Clause("C15.kmeans.mstep", "undecided", "", "m_step does not return a (centroids, criterion) pair of the expected kinds")]
+    V.compare_terms(P(m2.fn(k, d)), s_ * P(m1.fn(k, d)) + tt(d), F, "C15.kmeans.mstep.centroids", out)
+    V.compare_terms(P(c2), s_ ** 2 * P(c1), F, "C15.kmeans.mstep.criterion", out)
+    return collapse(out, "C15.kmeans.mstep", "the real kmeans.m_step maps the statistics of s x + t (same assignments) to s centroids + t and s^2 criterion, "
+                    "for all counts >= 0 (a cluster without samples included)")
+
+
+GROUPS = [guard(gmm_likelihood), guard(mstep_equivariance), guard(scoring_invariance), guard(kmeans_equivariance), guard(kmeans_mstep_code)]
 BOUNDED = [bounded("fa_repro.py", "affine", "C15.fa",
                    "ISV/JFA: enrolled speaker/offset factors, channel factors and scores are unchanged under per-feature x -> a x + b "
                    "(a of both signs and different magnitudes) with UBM, U, V, D transformed accordingly")]
 SHARED = [("C01", "lwl_post", ["C01.lwl.post"]), ("C01", "ll_post", ["C01.ll.post"]), ("C02", "estep_post", ["C02.estep.n", "C02.estep.sum_px", "C02.estep.sum_pxx"]),
           ("C03", "mstep_ml", ["C03.m.means", "C03.m.variances", "C03.m.weights"]), ("C05", "mstep_map", ["C05.means", "C05.variances", "C05.weights"]),
-          ("C08", "post", ["C08.post", "C08.norm"]), ("C10", "projection", ["C10.project"]), ("C06", "estep", ["C06.assign"]), ("C20", "dist", ["C20.dist.ndarray"]),
+          ("C08", "post", ["C08.post", "C08.norm"]), ("C10", "projection", ["C10.project"]), ("C06", "estep", ["C06.assign"]), ("C06", "mstep", ["C06.centroid", "C06.mstep.criterion"]), ("C20", "dist", ["C20.dist.ndarray"]),
           # the ISV/JFA equivariance lemmas are stated over the leaf contracts: the code must meet them
           ("C07", "fn_x_all", ["C07.fn_x"]), ("C07", "fn_z_all", ["C07.fn_z"]), ("C07", "leaf_compute_fn_y_i", ["C07.fn_y"]),
           ("C07", "prec_all", ["C07.prec.x", "C07.prec.y", "C07.prec.z", "C07.uprod", "C07.vprod"]),
@@ -213,7 +253,7 @@ SHARED = [("C01", "lwl_post", ["C01.lwl.post"]), ("C01", "ll_post", ["C01.ll.pos
           ("C06", "loop_thr_max", ["C06.loop.body[thr=set,max=set]", "C06.loop.break-post[thr=set,max=set]", "C06.loop.preserve[thr=set,max=set]"]),
           ("C03", "loop_thr_max", ["C03.loop.body[thr=set,max=set]", "C03.loop.break-post[thr=set,max=set]", "C03.loop.preserve[thr=set,max=set]"]),
           ("C09", "msteps", ["C09.U.mstep", "C09.V.mstep", "C09.D.mstep"]), ("C09", "esteps", ["C09.estep.V", "C09.estep.U", "C09.estep.D"]), ("C09", "finalizers", ["C09.finalize.V", "C09.finalize.U"])]
-REPLAY = [("C03", "gmm_repro.py", "ml_mstep", {}), ("C05", "gmm_repro.py", "map_mstep", {}), ("C07", "fa_repro.py", "phases", {}), ("C09", "fa_repro.py", "phases", {}), ("C15.lwl", "gmm_repro.py", "affine", {}), ("C15.estep", "gmm_repro.py", "affine", {}), ("C15.ml", "gmm_repro.py", "affine", {}), ("C15.fa", "fa_repro.py", "affine", {}), ("C15.map", "gmm_repro.py", "map_mstep", {}), ("C15", "gmm_repro.py", "affine", {})]
+REPLAY = [("C15.kmeans", "kmeans_repro.py", "affine", {}), ("C06", "kmeans_repro.py", "affine", {}), ("C20", "kmeans_repro.py", "affine", {}), ("C03", "gmm_repro.py", "ml_mstep", {}), ("C05", "gmm_repro.py", "map_mstep", {}), ("C07", "fa_repro.py", "phases", {}), ("C09", "fa_repro.py", "phases", {}), ("C15.lwl", "gmm_repro.py", "affine", {}), ("C15.estep", "gmm_repro.py", "affine", {}), ("C15.ml", "gmm_repro.py", "affine", {}), ("C15.fa", "fa_repro.py", "affine", {}), ("C15.map", "gmm_repro.py", "map_mstep", {}), ("C15", "gmm_repro.py", "affine", {})]
 TRUSTED = ["rotation invariance of the Euclidean norm (k-means under rotations)", "argmin_k f(k) = argmin_k s^2 f(k) for s != 0",
            "log atoms denote log|.| (so log(a^2 v) = 2 log|a| + log v)"]
 ASSUMPTIONS = ["no variance floor / count floor active (or floors transformed with the features)", "a_d != 0"]
